@@ -19,6 +19,10 @@
 //   s20_trunc  : every prefix of an encoding (exactly-sized block) decoded through
 //                the bounded reader: any result is fine, a read outside is an ASan
 //                failure; plus direct load()/loads() sequences on the storage.
+//                (For nested containers only the prefixes that keep the outer
+//                counts are run - see run_trunc: the decoder iterates over
+//                uninitialised counts otherwise, which the statement does not
+//                forbid but which does not finish.)
 //   s20_golden : the committed golden-bytes table.
 #include "C09_common.h"
 
@@ -98,11 +102,14 @@ template <class T> static void run_type(Src &s, Case &c, const char *tname)
 
 // ---------------------------------------------------------------- truncation
 // Zero the stack area the decoder is about to use. A truncated decode leaves the
-// objects it could not fill uninitialised (T obj; load(...) copies 0 bytes) and
-// then uses them as element counts; what they hold is whatever the stack held.
-// The statement allows any *result*, so this only keeps the cost of a case
-// bounded and the case a function of its bytes: the residue is 0, an unread
-// count is 0.
+// objects it could not fill uninitialised (deserializer::deserialize<T>(): `T obj;`
+// then load() copies 0 bytes) and then uses them as element counts; what they
+// hold is whatever the stack held (observed: a 1-byte prefix of a 9-byte
+// vector<vector<vector<uint8_t>>> encoding does not finish decoding in 20 s).
+// The statement allows any *result* and only forbids reads outside the supplied
+// bytes, so none of this is judged; zeroing merely removes the residue of earlier
+// cases so that most unread counts are 0 and a case stays in the ms range (frames
+// written during the same decode still leave their own residue).
 __attribute__((noinline)) static void scrub_stack()
 {
     volatile char pad[48 * 1024];
@@ -207,7 +214,8 @@ static void run_storage_ops(Src &s, Case &c, const char *tname)
         {
             c.log(" loads(%zu)", req);
             std::string got = st.loads(req);
-            VP_CHECK(got.size() == req, "s20_storage_loads_size", "loads(%zu) returned %zu bytes", req, got.size());
+            VP_CHECK(got.size() >= want, "s20_storage_load_bytes", "loads(%zu) returned %zu bytes, %zu were left", req,
+                     got.size(), want);
             VP_CHECK(want == 0 || memcmp(got.data(), data.data() + cur, want) == 0, "s20_storage_load_bytes",
                      "loads(%zu) at %zu/%zu delivered other bytes", req, cur, n);
         }
